@@ -2,7 +2,13 @@ package valkit
 
 import (
 	"context"
+	"crypto/ecdsa"
+	"crypto/elliptic"
+	crand "crypto/rand"
 	"crypto/sha256"
+	"crypto/x509"
+	"encoding/base64"
+	"encoding/pem"
 	"errors"
 	"fmt"
 	"runtime"
@@ -41,7 +47,20 @@ const BaseSlot = uint64(896 * 10000)
 const (
 	OtherOperator   = spectypes.OperatorID(100) // registered, not in any committee
 	UnknownOperator = spectypes.OperatorID(999) // not registered
+	// BadKeyOperator+k (k = 1..4): registered operators whose stored public key cannot be parsed (the contract event
+	// handler stores the key bytes of OperatorAdded unparsed): 1 not base64, 2 base64 of garbage, 3 base64 of a valid
+	// PEM of a non-RSA (ECDSA P-256) key, 4 empty
+	BadKeyOperator = spectypes.OperatorID(100)
 )
+
+// AllOperatorIDs are the ids an envelope can name with a distinct outcome (byte-level perturbation of the id field).
+func (e *Env) AllOperatorIDs() []uint64 {
+	out := []uint64{0, uint64(OtherOperator), uint64(UnknownOperator), 101, 102, 103, 104}
+	for i := 1; i <= e.N; i++ {
+		out = append(out, uint64(i))
+	}
+	return out
+}
 
 // ForkEpochOf maps the spec's ForkEpoch code (relative to the epoch of BaseSlot) to the real epoch.
 func ForkEpochOf(code int) phase0.Epoch { return phase0.Epoch(int64(BaseSlot/32) + int64(code)) }
@@ -155,6 +174,22 @@ func NewEnv(n int) (*Env, error) {
 			return nil, err
 		}
 		e.OpKeys[id] = k
+	}
+	eck, err := ecdsa.GenerateKey(elliptic.P256(), crand.Reader)
+	if err != nil {
+		return nil, err
+	}
+	der, err := x509.MarshalPKIXPublicKey(&eck.PublicKey)
+	if err != nil {
+		return nil, err
+	}
+	ecPEM := pem.EncodeToMemory(&pem.Block{Type: "PUBLIC KEY", Bytes: der})
+	badKeys := [][]byte{[]byte("!!! this is not base64 !!!"), []byte(base64.StdEncoding.EncodeToString([]byte("garbage, not a PEM block"))),
+		[]byte(base64.StdEncoding.EncodeToString(ecPEM)), {}}
+	for k, pk := range badKeys {
+		if _, err := ns.SaveOperatorData(nil, &registrystorage.OperatorData{ID: BadKeyOperator + spectypes.OperatorID(k+1), PublicKey: pk, OwnerAddress: common.Address{}}); err != nil {
+			return nil, err
+		}
 	}
 	return e, nil
 }
